@@ -114,6 +114,12 @@ static void op_uaddCarry(const Case& c, Outcome& o) {
 #define ADDL(L) { glm::vec<L, glm::uint> vx, vy, vc(77u); for (int k = 0; k < L; ++k) { vx[k] = (uint32_t)lane(x, k, 32); vy[k] = (uint32_t)lane(y, (k * 3) & 3, 32); } glm::vec<L, glm::uint> vr = glm::uaddCarry(vx, vy, vc); \
     for (int k = 0; k < L; ++k) { uint64_t t = (uint64_t)vx[k] + vy[k]; if (vr[k] != (uint32_t)t || vc[k] != (uint32_t)(t >> 32)) { o.res(vr[k], vc[k]); o.exp((uint32_t)t, t >> 32); o.bad(10 + L, "uaddCarry vec overload"); return; } } }
   ADDL(1) ADDL(2) ADDL(3) ADDL(4)
+  // the carry output may be the same object as an operand (GLSL copies `in` arguments at the call, so uaddCarry(t, c, c) is well defined there)
+  { glm::uint a = x, cy = y; glm::uint r1 = glm::uaddCarry(a, cy, cy); glm::uint b = y, cx = x; glm::uint r2 = glm::uaddCarry(cx, b, cx);
+    if (r1 != wr || cy != wc || r2 != wr || cx != wc) { o.res(r1, cy); o.exp(wr, wc); o.bad(2, "uaddCarry scalar with the carry output aliasing an operand"); return; } }
+#define ADDA(L) { glm::vec<L, glm::uint> vx, vy; for (int k = 0; k < L; ++k) { vx[k] = (uint32_t)lane(x, k, 32); vy[k] = (uint32_t)lane(y, (k * 3) & 3, 32); } glm::vec<L, glm::uint> ox = vx, oy = vy, c1 = vy, c2 = vx; glm::vec<L, glm::uint> r1 = glm::uaddCarry(vx, c1, c1), r2 = glm::uaddCarry(c2, vy, c2); \
+    for (int k = 0; k < L; ++k) { uint64_t t = (uint64_t)ox[k] + oy[k]; if (r1[k] != (uint32_t)t || c1[k] != (uint32_t)(t >> 32) || r2[k] != (uint32_t)t || c2[k] != (uint32_t)(t >> 32)) { o.res(r1[k], c1[k]); o.exp((uint32_t)t, t >> 32); o.bad(20 + L, "uaddCarry vec overload with the carry output aliasing an operand"); return; } } }
+  ADDA(1) ADDA(2) ADDA(3) ADDA(4)
 }
 static void op_usubBorrow(const Case& c, Outcome& o) {
   uint32_t x = (uint32_t)c.w[0], y = (uint32_t)c.w[1]; glm::uint bor = 77; glm::uint r = glm::usubBorrow(x, y, bor);
@@ -127,6 +133,15 @@ static void op_usubBorrow(const Case& c, Outcome& o) {
     for (int k = 0; k < L; ++k) { uint32_t d = vx[k] - vy[k], b = vx[k] < vy[k]; if (vr[k] != d || vc[k] != b) { o.res(vr[k], vc[k]); o.exp(d, b); \
       if (vc[k] == b && vr[k] == (uint32_t)(vy[k] - vx[k]) && vx[k] != vy[k]) o.kf = KF_USUBBORROW; o.bad(10 + L, "usubBorrow vec overload"); return; } } }
   SUBL(1) SUBL(2) SUBL(3) SUBL(4)
+  // borrow output aliasing an operand (the operands are read by reference; GLSL copies them at the call)
+  { glm::uint a = x, cy = y; glm::uint r1 = glm::usubBorrow(a, cy, cy); glm::uint b = y, cx = x; glm::uint r2 = glm::usubBorrow(cx, b, cx);
+    if (r1 != wr || cy != wb || r2 != wr || cx != wb) { o.res(r1, cy); o.exp(wr, wb);
+      if (cy == wb && cx == wb && r1 == (uint32_t)(y - x) && r2 == (uint32_t)(y - x) && x != y) o.kf = KF_USUBBORROW;
+      o.bad(2, "usubBorrow scalar with the borrow output aliasing an operand"); return; } }
+#define SUBA(L) { glm::vec<L, glm::uint> vx, vy; for (int k = 0; k < L; ++k) { vx[k] = (uint32_t)lane(x, k, 32); vy[k] = (uint32_t)lane(y, (k * 3) & 3, 32); } glm::vec<L, glm::uint> ox = vx, oy = vy, c1 = vy, c2 = vx; glm::vec<L, glm::uint> r1 = glm::usubBorrow(vx, c1, c1), r2 = glm::usubBorrow(c2, vy, c2); \
+    for (int k = 0; k < L; ++k) { uint32_t d = ox[k] - oy[k], b = ox[k] < oy[k]; if (r1[k] != d || c1[k] != b || r2[k] != d || c2[k] != b) { o.res(r1[k], c1[k]); o.exp(d, b); \
+      if (c1[k] == b && c2[k] == b && r1[k] == (uint32_t)(oy[k] - ox[k]) && r2[k] == (uint32_t)(oy[k] - ox[k]) && ox[k] != oy[k]) o.kf = KF_USUBBORROW; o.bad(20 + L, "usubBorrow vec overload with the borrow output aliasing an operand"); return; } } }
+  SUBA(1) SUBA(2) SUBA(3) SUBA(4)
 }
 static void op_umulExtended(const Case& c, Outcome& o) {
   uint32_t x = (uint32_t)c.w[0], y = (uint32_t)c.w[1]; glm::uint msb = 77, lsb = 77; glm::umulExtended(x, y, msb, lsb);
@@ -135,6 +150,11 @@ static void op_umulExtended(const Case& c, Outcome& o) {
 #define UML(L) { glm::vec<L, glm::uint> vx, vy, vm(77u), vl(77u); for (int k = 0; k < L; ++k) { vx[k] = (uint32_t)lane(x, k, 32); vy[k] = (uint32_t)lane(y, (k * 3) & 3, 32); } glm::umulExtended(vx, vy, vm, vl); \
     for (int k = 0; k < L; ++k) { uint64_t t = (uint64_t)vx[k] * vy[k]; if (vm[k] != (uint32_t)(t >> 32) || vl[k] != (uint32_t)t) { o.res(vm[k], vl[k]); o.exp(t >> 32, (uint32_t)t); o.bad(10 + L, "umulExtended vec overload"); return; } } }
   UML(1) UML(2) UML(3) UML(4)
+  { glm::uint a = x, b = y; glm::umulExtended(a, b, a, b); glm::uint a2 = x, b2 = y; glm::umulExtended(a2, b2, b2, a2);
+    if (a != (uint32_t)(p >> 32) || b != (uint32_t)p || b2 != (uint32_t)(p >> 32) || a2 != (uint32_t)p) { o.res(a, b); o.exp((uint32_t)(p >> 32), (uint32_t)p); o.bad(2, "umulExtended scalar with the outputs aliasing the operands"); return; } }
+#define UMA(L) { glm::vec<L, glm::uint> vx, vy; for (int k = 0; k < L; ++k) { vx[k] = (uint32_t)lane(x, k, 32); vy[k] = (uint32_t)lane(y, (k * 3) & 3, 32); } glm::vec<L, glm::uint> ox = vx, oy = vy; glm::umulExtended(vx, vy, vx, vy); \
+    for (int k = 0; k < L; ++k) { uint64_t t = (uint64_t)ox[k] * oy[k]; if (vx[k] != (uint32_t)(t >> 32) || vy[k] != (uint32_t)t) { o.res(vx[k], vy[k]); o.exp(t >> 32, (uint32_t)t); o.bad(20 + L, "umulExtended vec overload with the outputs aliasing the operands"); return; } } }
+  UMA(1) UMA(2) UMA(3) UMA(4)
 }
 static void op_imulExtended(const Case& c, Outcome& o) {
   int32_t x = (int32_t)(uint32_t)c.w[0], y = (int32_t)(uint32_t)c.w[1]; int msb = 77, lsb = 77; glm::imulExtended(x, y, msb, lsb);
@@ -144,6 +164,11 @@ static void op_imulExtended(const Case& c, Outcome& o) {
 #define IML(L) { glm::vec<L, int> vx, vy, vm(77), vl(77); for (int k = 0; k < L; ++k) { vx[k] = (int32_t)(uint32_t)lane((uint32_t)x, k, 32); vy[k] = (int32_t)(uint32_t)lane((uint32_t)y, (k * 3) & 3, 32); } glm::imulExtended(vx, vy, vm, vl); \
     for (int k = 0; k < L; ++k) { int64_t t = (int64_t)vx[k] * vy[k]; if ((uint32_t)vm[k] != (uint32_t)(uint64_t)(t >> 32) || (uint32_t)vl[k] != (uint32_t)(uint64_t)t) { o.res((uint32_t)vm[k], (uint32_t)vl[k]); o.exp((uint32_t)(uint64_t)(t >> 32), (uint32_t)(uint64_t)t); o.bad(10 + L, "imulExtended vec overload"); return; } } }
   IML(1) IML(2) IML(3) IML(4)
+  { int a = x, b = y; glm::imulExtended(a, b, a, b); int a2 = x, b2 = y; glm::imulExtended(a2, b2, b2, a2);
+    if ((uint32_t)a != wm || (uint32_t)b != wl || (uint32_t)b2 != wm || (uint32_t)a2 != wl) { o.res((uint32_t)a, (uint32_t)b); o.exp(wm, wl); o.bad(2, "imulExtended scalar with the outputs aliasing the operands"); return; } }
+#define IMA(L) { glm::vec<L, int> vx, vy; for (int k = 0; k < L; ++k) { vx[k] = (int32_t)(uint32_t)lane((uint32_t)x, k, 32); vy[k] = (int32_t)(uint32_t)lane((uint32_t)y, (k * 3) & 3, 32); } glm::vec<L, int> ox = vx, oy = vy; glm::imulExtended(vx, vy, vx, vy); \
+    for (int k = 0; k < L; ++k) { int64_t t = (int64_t)ox[k] * oy[k]; if ((uint32_t)vx[k] != (uint32_t)(uint64_t)(t >> 32) || (uint32_t)vy[k] != (uint32_t)(uint64_t)t) { o.res((uint32_t)vx[k], (uint32_t)vy[k]); o.exp((uint32_t)(uint64_t)(t >> 32), (uint32_t)(uint64_t)t); o.bad(20 + L, "imulExtended vec overload with the outputs aliasing the operands"); return; } } }
+  IMA(1) IMA(2) IMA(3) IMA(4)
 }
 
 static std::vector<uint64_t> small_values(int w) {
